@@ -200,9 +200,26 @@ func genGovTraffic(r *Run, kind string) (Step, bool) {
 		if kind == "custom" {
 			typ = "custom"
 		}
+		if r.Cfg.Knob("c07_engine") == "gov" && rng.IntN(5) == 0 {
+			// only as a surrogate workload of C07 (these proposals break what C15's own oracles assume): the
+			// gov account pays out money it holds as deposits, and a proposal asks the crisis module to verify
+			// the gov invariant - that handler panics by design when the invariant is broken
+			typ = []string{"govsend", "verifyinv", "verifyinv"}[rng.IntN(3)]
+		}
 		var spec string
 		need := sdkmath.LegacyNewDecFromInt(minDep)
 		switch typ {
+		case "govsend":
+			bal := w.App.BankKeeper.GetBalance(w.Ctx(), authtypes.NewModuleAddress("gov"), fxtypes.DefaultDenom).Amount
+			amt := bal.QuoRaw(int64(1 + rng.IntN(3)))
+			if !amt.IsPositive() {
+				amt = sdkmath.NewInt(1)
+			}
+			spec = gitem("send", "to", KeyName("rcpt", u*4), "amount", amt.String())
+			r.Probe("c07-gov-account-pays-out")
+		case "verifyinv":
+			spec = gitem("verifyinv", "module", "gov", "route", "module-account")
+			r.Probe("c07-verify-invariant-proposal")
 		case "text":
 			spec = "text"
 		case "ccparams":
